@@ -184,6 +184,26 @@ func ruleG4(p *Prog, r *Report) {
 					}
 					return false
 				})
+				// a deferred put of the same object runs again when the function returns
+				var again ssa.Instruction
+				eachInstr(fn, func(y ssa.Instruction) {
+					d, ok := y.(*ssa.Defer)
+					if !ok {
+						return
+					}
+					g := staticCallee(d)
+					if g == nil || !wrappers[g] || len(d.Call.Args) == 0 {
+						return
+					}
+					a := d.Call.Args[0]
+					if taint[a] || taint[canon(a)] || canon(a) == canon(x) {
+						again = y
+					}
+				})
+				if use == nil && again != nil {
+					r.Bad(R, cons, p.InstrPos(in), "the object is returned to the pool here and again by the deferred put registered at "+p.InstrPos(again)+": two later Gets (possibly on different goroutines) would receive the same object")
+					return
+				}
 				if use != nil {
 					r.Bad(R, cons, p.InstrPos(in), "pooled object (or an alias of its buffer) is used at "+p.InstrPos(use)+" after it was returned to the pool: another goroutine may already own it")
 				} else {
